@@ -1,8 +1,11 @@
 #!/bin/bash
-# build everything once, offline, and warm the build cache
+# build everything once, offline, and warm the build cache (plain driver, instrumenter,
+# scheduled worker with and without the race detector)
 set -eu
 . "$(dirname "$0")/env.sh"
 cd "$VERIF_ROOT/engine"
 cp /repo/go.sum go.sum
 go build -o "$VERIF_BUILD/verif" ./cmd/verif
+"$VERIF_ROOT/bin/build-sched.sh"
+"$VERIF_ROOT/bin/build-sched.sh" race
 echo "setup ok"
